@@ -1,8 +1,123 @@
-/- Line-protocol driver stub: answers every request line with "unimplemented". -/
+/-
+  drv_uci — trace acceptor for C13.
+
+  Request line:  `mock|real` followed by the recorded events of one driver session, in order:
+     i:isready i:goPT (P,T ∈ {0,1}: ponder, timed) i:stop i:ponderhit i:quit i:other<ws> (ws ∈ {0,1}*)
+     eof  o:readyok o:info o:bestmove o:other  ret  sdone sstop (mock only)
+  Answer line:   `accept states=<max set size> props=<ok|name of the violated trace property>`
+              or `reject at=<index> ev=<token> props=…`
+  Acceptance is decided by state-set simulation of `ChessVerif.Uci.fire` (closure under invisible
+  transitions, ghost history erased).  `props` are the four trace properties checked directly on
+  the event list, independently of the transition system.
+-/
+import ChessVerif.Spec.UciProtocol
+import Std.Data.HashSet
+
+open ChessVerif.Uci
+
+def eraseGhost (s : State) : State := { s with log := [], written := [], consumed := [] }
+
+abbrev SSet := Std.HashSet State
+
+/-- Successors of `s`: (label or none, erased successor). -/
+def succs (mock : Bool) (s : State) : List (Option Obs × State) :=
+  Tr.all.filterMap fun t =>
+    match fire t s with
+    | some s' => some (obsOf mock t s, eraseGhost s')
+    | none => none
+
+/-- Closure under invisible transitions (worklist; `fuel` only bounds the loop syntactically). -/
+def closure (mock : Bool) : Nat → List State → SSet → SSet
+  | 0, _, seen => seen
+  | _, [], seen => seen
+  | fuel+1, s :: work, seen =>
+    let (work, seen) := (succs mock s).foldl (init := (work, seen)) fun (w, sn) (o, s') =>
+      if o.isNone && !sn.contains s' then (s' :: w, sn.insert s') else (w, sn)
+    closure mock fuel work seen
+
+def closeSet (mock : Bool) (ss : List State) : SSet :=
+  closure mock 10000000 ss (Std.HashSet.ofList ss)
+
+def stepObs (mock : Bool) (S : SSet) (o : Obs) : SSet :=
+  let nxt := S.fold (init := (∅ : SSet)) fun acc s =>
+    (succs mock s).foldl (init := acc) fun acc (l, s') => if l = some o then acc.insert s' else acc
+  closeSet mock nxt.toList
+
+def parseBits (s : String) : Option (List Bool) :=
+  s.toList.mapM fun c => if c = '1' then some true else if c = '0' then some false else none
+
+def parseTok (t : String) : Option Obs :=
+  if t = "eof" then some .eof
+  else if t = "ret" then some .ret
+  else if t = "sdone" then some .sdone
+  else if t = "sstop" then some .sstop
+  else if t = "o:readyok" then some (.out .readyok)
+  else if t = "o:info" then some (.out .info)
+  else if t = "o:bestmove" then some (.out .bestmove)
+  else if t = "o:other" then some (.out .other)
+  else if t = "i:isready" then some (.inp .isready)
+  else if t = "i:stop" then some (.inp .stop)
+  else if t = "i:ponderhit" then some (.inp .ponderhit)
+  else if t = "i:quit" then some (.inp .quit)
+  else if t.startsWith "i:go" then
+    match (parseBits (t.drop 4).toString) with
+    | some [p, tm] => some (.inp (.go p tm))
+    | _ => none
+  else if t.startsWith "i:other" then (parseBits (t.drop 7).toString).map fun ws => .inp (.other ws)
+  else none
+
+/-- The four trace properties, checked on the event list alone.
+    State: busy (a `go` was written and its `bestmove` not yet seen), #isready − #readyok. -/
+def traceProps (tr : List Obs) : String :=
+  let rec go (busy : Bool) (pendReady : Nat) (ended : Bool) (fin : Bool) : List Obs → String
+    | [] => "ok"
+    | o :: rest =>
+      if fin then "event_after_return" else
+      match o with
+      | .inp (.go _ _) => if busy then "go_while_busy(harness)" else go true pendReady ended fin rest
+      | .inp .isready => go busy (pendReady + 1) ended fin rest
+      | .inp .quit => go busy pendReady true fin rest
+      | .inp _ => go busy pendReady ended fin rest
+      | .eof => go busy pendReady true fin rest
+      | .out .bestmove => if busy then go false pendReady ended fin rest else "bestmove_without_go"
+      | .out .info => if busy then go busy pendReady ended fin rest else "info_outside_search"
+      | .out .readyok =>
+        if pendReady = 0 then "readyok_without_isready" else go busy (pendReady - 1) ended fin rest
+      | .out _ => go busy pendReady ended fin rest
+      | .sdone | .sstop => go busy pendReady ended fin rest
+      | .ret =>
+        if !ended then "return_without_quit_or_eof"
+        else if busy then "go_unanswered_at_return"
+        else if pendReady ≠ 0 then "isready_unanswered_at_return"
+        else go busy pendReady ended true rest
+  go false 0 false false tr
+
+def answer (line : String) : String :=
+  let toks := (line.splitOn " ").filter (· ≠ "")
+  match toks with
+  | [] => "error empty"
+  | mode :: evs =>
+    if mode ≠ "mock" ∧ mode ≠ "real" then "error mode" else
+    let mock := mode = "mock"
+    match evs.mapM parseTok with
+    | none => "error token"
+    | some tr =>
+      let script := tr.filterMap fun | .inp c => some c | _ => none
+      let props := traceProps tr
+      let rec run (S : SSet) (mx : Nat) (i : Nat) : List (Obs × String) → String
+        | [] => s!"accept states={mx} props={props}"
+        | (o, tok) :: rest =>
+          let S' := stepObs mock S o
+          if S'.isEmpty then s!"reject at={i} ev={tok} props={props}"
+          else if S'.any (·.panic) then s!"reject at={i} ev={tok} model-panic props={props}"
+          else run S' (max mx S'.size) (i + 1) rest
+      let S0 := closeSet mock [eraseGhost (init script)]
+      run S0 S0.size 0 (tr.zip evs)
+
 partial def loop (h : IO.FS.Stream) (out : IO.FS.Stream) : IO Unit := do
   let line ← h.getLine
   if line.isEmpty then return ()
-  out.putStrLn "unimplemented"
+  out.putStrLn (answer (line.trimAscii.toString))
   out.flush
   loop h out
 
